@@ -1,8 +1,11 @@
 package logqlengine
 
 import (
+	"encoding/binary"
 	"maps"
 	"regexp"
+	"slices"
+	"strings"
 
 	"github.com/cespare/xxhash/v2"
 	"go.opentelemetry.io/collector/pdata/pcommon"
@@ -32,11 +35,20 @@ func newAggregatedLabels(set LabelSet, by, without map[string]struct{}) *aggrega
 		})
 	})
 
+	// Sort entries, so the grouping key does not depend on the map iteration order.
+	sortLabelEntries(labels)
+
 	return &aggregatedLabels{
 		entries: labels,
 		without: without,
 		by:      by,
 	}
+}
+
+func sortLabelEntries(entries []labelEntry) {
+	slices.SortFunc(entries, func(a, b labelEntry) int {
+		return strings.Compare(a.name, b.name)
+	})
 }
 
 // By returns new set of labels containing only given list of labels.
@@ -70,9 +82,17 @@ func (a *aggregatedLabels) Without(labels ...logql.Label) logqlmetric.Aggregated
 // Key computes grouping key from set of labels.
 func (a *aggregatedLabels) Key() logqlmetric.GroupingKey {
 	h := xxhash.New()
+	// Prefix every string with its length, so different label sets
+	// could not produce the same byte sequence.
+	var length [8]byte
+	writeString := func(s string) {
+		binary.LittleEndian.PutUint64(length[:], uint64(len(s)))
+		_, _ = h.Write(length[:])
+		_, _ = h.WriteString(s)
+	}
 	a.forEach(func(k, v string) {
-		_, _ = h.WriteString(k)
-		_, _ = h.WriteString(v)
+		writeString(k)
+		writeString(v)
 	})
 	return h.Sum64()
 }
@@ -133,6 +153,7 @@ func (a *aggregatedLabels) setEntry(key, value string) {
 	}
 	if entry == nil {
 		a.entries = append(a.entries, replacement)
+		sortLabelEntries(a.entries)
 	} else {
 		*entry = replacement
 	}
